@@ -120,6 +120,9 @@ func (f *Frame) builtin(b *ssa.Builtin, cc *ssa.CallCommon, args []Val, pc strin
 	case "ssa:deferstack":
 		return Val{T: "0", Typ: types.Typ[types.Int]}
 	case "recover":
+		if f.root().con != nil && f.root().con.MayPanic {
+			unsup("may_panic contract on a function that can recover from panics")
+		}
 		// effective only when called directly by a deferred function while its parent unwinds a panic
 		if f.parent != nil && f.parent.unwinding != nil {
 			u := f.parent.unwinding
@@ -550,6 +553,14 @@ func (f *Frame) callContract(callee *ssa.Function, con *Contract, args []Val, pc
 	}
 	sort.Strings(comps)
 	_, anything := modRefs["*"]
+	if containsStr(modRefs[poolBufsComp], "POOL") {
+		// the callee declares modifies pool_state()
+		f.poolHavoc(st)
+		delete(modRefs, poolBufsComp)
+		delete(modRefs, poolArraysComp)
+		delete(modRefs, bufArrComp)
+		delete(modRefs, elemComp(types.Typ[types.Uint8]))
+	}
 	if anything {
 		st.ptrCells = nil
 		st.fnCells = nil
@@ -578,6 +589,11 @@ func (f *Frame) callContract(callee *ssa.Function, con *Contract, args []Val, pc
 		// as they are keeps them unconstrained, and only the callee's ensures clauses describe them.
 		_, elemSort := arraySorts(srt)
 		cur := oldT
+		if containsStr(modRefs[k], "ALL") {
+			st.heap[k] = vc.freshConst("post "+k, srt)
+			touched = append(touched, k)
+			continue
+		}
 		for i, m := range modRefs[k] {
 			fv := vc.freshConst(fmt.Sprintf("post%d %s", i, k), elemSort)
 			cur = fmt.Sprintf("(store %s %s %s)", cur, m, fv)
@@ -1001,6 +1017,15 @@ func (f *Frame) isPureCallback(fv Val) bool {
 			if pv, ok := fr.params[name]; ok && pv.T == fv.T {
 				return true
 			}
+		}
+	}
+	return false
+}
+
+func containsStr(xs []string, x string) bool {
+	for _, y := range xs {
+		if y == x {
+			return true
 		}
 	}
 	return false
